@@ -1,7 +1,7 @@
 (* C13: nil and Null() items vanish from lists; Empty() keeps its separator.
    Statements only; proofs are lemmas of Proofs/NullProofs.v. *)
 From Jen Require Import Base.Bytes Model.Code Model.Naming Model.Render Gen.Tables.
-From Jen Require Import Proofs.NullProofs.
+From Jen Require Import Base.Sort Proofs.NullProofs Proofs.CommentProofs Proofs.EmitProofs.
 
 (* The items the property names, independent of any File: nil, typed nil pointers, Null(),
    statements and delimiter-less groups made only of such items, empty Tags, Dicts without
@@ -50,6 +50,38 @@ Proof. intros cfg. split; [exact (req_refl cfg) | exact (req_trans cfg)]. Qed.
 Theorem C13_empty_is_an_item : forall cfg t,
   is_null cfg t (CTok (TkText [])) = false /\ render cfg false t (CTok (TkText [])) = Ok (t, []).
 Proof. intros. split; reflexivity. Qed.
+
+(* THE RENDERED LIST IS EXACTLY THE REMAINING ITEMS.  For a one-line group of any construct
+   whose (non-null) items are settled at table t (they render to the texts [txt] without
+   registering anything new), with nullish items inserted anywhere: the output is
+   open ++ the texts of the non-null items, in order, joined by the separator (n-1
+   separators for n items) ++ close (no braces for a block after case/default; nothing for
+   an all-null Types list). *)
+Theorem C13_exactly_remaining_items : forall cfg t txt ctx gid name o cl sep xs ns ys,
+  forallb nullish ns = true -> settled_items cfg t txt (xs ++ ys) -> dict_free name (xs ++ ys) ->
+  let live := filter (live_item cfg t) (xs ++ ys) in
+  let blank := str_eqb name s_block && ctx in
+  render cfg ctx t (CGroup gid name o cl sep false (xs ++ ns ++ ys)) =
+  Ok (t, if str_eqb name s_types && is_nil live then []
+         else (if blank then [] else o) ++ join sep (map txt live) ++ (if blank then [] else cl)).
+Proof. exact list_exactly_remaining_items. Qed.
+
+(* Empty() contributes the empty text at its place between separators: it is counted. *)
+Theorem C13_empty_separates : forall cfg t txt ctx gid name o cl sep xs ys,
+  settled_items cfg t txt (xs ++ CTok (TkText []) :: ys) -> dict_free name (xs ++ CTok (TkText []) :: ys) ->
+  str_eqb name s_types = false ->
+  let blank := str_eqb name s_block && ctx in
+  render cfg ctx t (CGroup gid name o cl sep false (xs ++ CTok (TkText []) :: ys)) =
+  Ok (t, (if blank then [] else o) ++
+         join sep (map txt (filter (live_item cfg t) xs) ++ [] :: map txt (filter (live_item cfg t) ys)) ++
+         (if blank then [] else cl)).
+Proof. exact empty_takes_part. Qed.
+
+(* exactly k-1 occurrences of a one-byte separator that occurs in no item text *)
+Theorem C13_separator_count : forall b multi first xs,
+  b <> x0a -> Forall (fun x => countb b x = 0) xs ->
+  countb b (group_text [b] multi first xs) = (length xs - (if first then 1 else 0))%nat.
+Proof. exact emit_separator_occurrences. Qed.
 
 (* Non-vacuity, and the two shapes behind the side conditions. *)
 Example C13_example :
